@@ -4,6 +4,7 @@ package c19
 import (
 	"bytes"
 	"fmt"
+	"math/big"
 	"regexp"
 	"sort"
 	"strings"
@@ -1040,6 +1041,35 @@ func checkCase(c Case) fw.Outcome {
 				return out
 			}
 		}
+		// a tree a decoder hands out can be encoded again, and the JSON encodings of it decode to the same tree (XML: the
+		// writer leaves the root element to the caller, which the harness's wrapper knows about only for trees it built)
+		// (an integer may be written "+5" or "007" in XML; JSON has one form for it: compared as integers)
+		var gb strings.Builder
+		canon(oi, intForm(oi, got.Kids), 0, &gb, false)
+		groot := D{Name: "root", Kids: got.Kids}
+		for e := 0; e < 2; e++ {
+			var b []byte
+			var epan any
+			func() {
+				defer func() { epan = recover() }()
+				b = encode(e, res.MS, groot.node())
+			}()
+			if epan != nil {
+				out.Violation = fmt.Sprintf("%s encoder panicked on a tree the %s decoder returned: %v\ninput: %q\n%s", encNames[e], encNames[m.Enc], epan, in, src)
+				return out
+			}
+			again, aerr, apan := decode(e, res.MS, b, false)
+			if apan != nil || aerr != nil {
+				out.Violation = fmt.Sprintf("the %s encoding of a tree the %s decoder returned does not decode: %v %v\nencoding: %s\ninput: %q\n%s", encNames[e], encNames[m.Enc], apan, aerr, b, in, src)
+				return out
+			}
+			var ab strings.Builder
+			canon(oi, intForm(oi, again.Kids), 0, &ab, false)
+			if ab.String() != gb.String() {
+				out.Violation = fmt.Sprintf("the %s encoding of a tree the %s decoder returned decodes to another tree\n--- decoded\n%s--- re-decoded\n%s--- encoding\n%s\ninput: %q\n%s", encNames[e], encNames[m.Enc], gb.String(), ab.String(), b, in, src)
+				return out
+			}
+		}
 	}
 	seen := map[string]bool{}
 	var ls []string
@@ -1054,6 +1084,48 @@ func checkCase(c Case) fw.Outcome {
 }
 
 var _ = vt.Builtin
+
+// intForm returns the tree with the values of integer-typed leaves (also as members of a union, also through the
+// percent typedef) in their canonical form.
+func intForm(oi *orderInfo, ds []*D) []*D {
+	isInt := func(ts *sg.TypeSpec) bool {
+		var walk func(t *sg.TypeSpec) bool
+		walk = func(t *sg.TypeSpec) bool {
+			if strings.HasPrefix(t.Name, "int") || strings.HasPrefix(t.Name, "uint") || strings.HasSuffix(t.Name, "percent") {
+				return true
+			}
+			for _, m := range t.Members {
+				if walk(m) {
+					return true
+				}
+			}
+			return false
+		}
+		return ts != nil && walk(ts)
+	}
+	var out []*D
+	for _, d := range ds {
+		cp := &D{Name: d.Name, Kids: intForm(oi, d.Kids)}
+		if oi.lists[d.Name] && isInt(oi.types[oi.keyOf[d.Name]]) {
+			// (the entries of a list go by the value of their first key)
+			for _, e := range cp.Kids {
+				if i, ok := new(big.Int).SetString(e.Name, 10); ok {
+					e.Name = i.String()
+				}
+			}
+		}
+		for _, v := range d.Vals {
+			if isInt(oi.types[d.Name]) {
+				if i, ok := new(big.Int).SetString(v, 10); ok {
+					v = i.String()
+				}
+			}
+			cp.Vals = append(cp.Vals, v)
+		}
+		out = append(out, cp)
+	}
+	return out
+}
 
 var codec = fw.Register(&fw.Prop[Case]{
 	ID: "C19", Name: "codec",
